@@ -100,5 +100,6 @@ pub fn gen_profile(s: &mut Src, nla: bool) -> ServerProfile {
         license: gen_license(s),
         activations: (0..rounds).map(|_| gen_demand_active(s)).collect(),
         auto: true,
+        post_activation: Vec::new(),
     }
 }
